@@ -51,7 +51,9 @@ impl<T: Value> ExpertEdge for Edge<T> {
         let mut handler = self.on_change.borrow_mut();
         if let Some(h) = &mut *handler {
             let v = self.child.node.value_as_ref();
-            h(v.as_ref().unwrap());
+            if let Some(v) = v.as_ref() {
+                h(v);
+            }
         }
     }
     fn packed(&self) -> NodeRef {
